@@ -10,6 +10,7 @@ package extractfam
 // exported ones (both sides normalised by one packageurl-go parse/print).
 
 import (
+	"bytes"
 	"context"
 	"fmt"
 	"os"
@@ -82,6 +83,10 @@ type c15Case struct {
 	// Formats are the output formats to export and read back (CLI names).
 	Formats  []string     `json:"formats"`
 	Packages []c15Package `json:"packages"`
+	// Stale says what the output paths hold before the export (a re-run of a scan writes over
+	// its earlier output): 0 nothing, 1 a larger file of other bytes, 2 the same export twice
+	// in a row (a larger file that begins with the very same document).
+	Stale int `json:"stale,omitempty"`
 }
 
 // harnessExtractor is the extractor the generated packages claim to come from.
@@ -227,6 +232,7 @@ func genC15(col *ev.Collector) func(t *rapid.T) c15Case {
 			}
 			c.Formats = append(c.Formats, f.id)
 		}
+		c.Stale = rapid.SampledFrom([]int{0, 0, 1, 2}).Draw(t, "stale")
 		for i := 0; i < n; i++ {
 			if len(c.Packages) > 0 && rapid.IntRange(0, 5).Draw(t, "dup") == 5 {
 				// duplicate package (same purl twice)
@@ -370,27 +376,49 @@ func propC15(c c15Case) (ev.Outcome, error) {
 			}
 		}
 	}
-	for _, f := range formats {
-		path := filepath.Join(dir, f.file)
-		if f.spdx {
-			doc := converter.ToSPDX23(res, converter.SPDXConfig{})
-			if err := bspdx.Write23(doc, path, strings.TrimSuffix(f.id, "+supplier-patched")); err != nil {
-				return ev.Outcome{}, fmt.Errorf("%s: writing the document fails: %v", f.id, err)
+	for pass := 0; pass < 2; pass++ {
+		// pass 0 prepares what is at the output paths before the export proper (pass 1)
+		if pass == 0 && c.Stale == 0 {
+			continue
+		}
+		for _, f := range formats {
+			path := filepath.Join(dir, f.file)
+			if pass == 0 && c.Stale == 1 {
+				if err := os.WriteFile(path, bytes.Repeat([]byte("stale output of an earlier run\n"), 4096), 0o644); err != nil {
+					return ev.Outcome{}, fmt.Errorf("harness: %v", err)
+				}
+				continue
 			}
-			if f.patchSupplier {
-				b, err := os.ReadFile(path)
+			if pass == 1 && c.Stale == 2 {
+				// the earlier export, made longer
+				old, err := os.ReadFile(path)
+				if err == nil {
+					err = os.WriteFile(path, append(append([]byte{}, old...), old...), 0o644)
+				}
 				if err != nil {
 					return ev.Outcome{}, fmt.Errorf("harness: %v", err)
 				}
-				b = []byte(strings.ReplaceAll(string(b), "\nPackageSupplier: NOASSERTION: NOASSERTION\n", "\nPackageSupplier: NOASSERTION\n"))
-				if err := os.WriteFile(path, b, 0o644); err != nil {
-					return ev.Outcome{}, fmt.Errorf("harness: %v", err)
-				}
 			}
-		} else {
-			bom := converter.ToCDX(res, converter.CDXConfig{ComponentName: "verif", ComponentVersion: "1"})
-			if err := bcdx.Write(bom, path, f.id); err != nil {
-				return ev.Outcome{}, fmt.Errorf("%s: writing the document fails: %v", f.id, err)
+			if f.spdx {
+				doc := converter.ToSPDX23(res, converter.SPDXConfig{})
+				if err := bspdx.Write23(doc, path, strings.TrimSuffix(f.id, "+supplier-patched")); err != nil {
+					return ev.Outcome{}, fmt.Errorf("%s: writing the document fails: %v", f.id, err)
+				}
+				if f.patchSupplier {
+					b, err := os.ReadFile(path)
+					if err != nil {
+						return ev.Outcome{}, fmt.Errorf("harness: %v", err)
+					}
+					b = []byte(strings.ReplaceAll(string(b), "\nPackageSupplier: NOASSERTION: NOASSERTION\n", "\nPackageSupplier: NOASSERTION\n"))
+					if err := os.WriteFile(path, b, 0o644); err != nil {
+						return ev.Outcome{}, fmt.Errorf("harness: %v", err)
+					}
+				}
+			} else {
+				bom := converter.ToCDX(res, converter.CDXConfig{ComponentName: "verif", ComponentVersion: "1"})
+				if err := bcdx.Write(bom, path, f.id); err != nil {
+					return ev.Outcome{}, fmt.Errorf("%s: writing the document fails: %v", f.id, err)
+				}
 			}
 		}
 	}
@@ -469,6 +497,9 @@ func propC15(c c15Case) (ev.Outcome, error) {
 				classes = append(classes, "has_subpath")
 			}
 		}
+	}
+	if c.Stale > 0 {
+		classes = append(classes, fmt.Sprintf("output_path_holds_larger_file_%d", c.Stale))
 	}
 	return ev.Outcome{NonTrivial: len(wantCDX) >= 2 && escaping, Classes: uniqStr(classes)}, nil
 }
